@@ -1,6 +1,7 @@
 """C16 — the compiler is total (structural clauses)."""
 from checks.common import Ctx
 from sa.report import Check
+from sa.rules import backend as BK
 from sa.rules import resolve_rules as RR
 from sa.rules import dispatch as D
 from sa.rules import grammar_rules as GR
@@ -82,4 +83,5 @@ def main(tier):
     chk.run("R-BOUNDORDER", BR.boundorder, cx.repo, floor=2)
     chk.run("R-ALIASATTR", SY.aliasattr, cx.repo, clauses=("attribute_clauses", "anonymous_own"), floor=3)
     chk.run("R-EXTINT", BR.extint, cx.repo, floor=2)
+    chk.run("R-FIELDREADER", BK.fieldreader, cx.repo, floor=6)
     return chk.finish()
